@@ -1,4 +1,4 @@
-import vf, e2obs, steps
+import vf, e2obs, steps, seqs
 
 ENC = ["cminx.aggregator.DocumentationAggregator.clean_doc_lines", "enterDocumented_command", "process_<kind>", "*.process", "Documenter.process_docs",
        "Paragraph.build_text_string", "Directive.to_text", "RSTWriter.to_text"]
@@ -29,4 +29,8 @@ def build(tier):
         obs.append(lay("crlf", n, l, k, leader, kind, t))
     # C04.c letter case of command names and C04.f token positions: symbolic in every inductive-step shard (oracle ignores them)
     obs += steps.step_obligations("C04.c/f", ["function", "set", "cpp_class", "cpp_end_class", "endmacro", "ct_add_test", "option"], tier, 1, 1, symargs=False)
+    # C04.f token positions: whole sequences with symbolic start lines (several commands may share a line): output independent of them
+    obs += seqs.seq_obligations("C04.f", ["option", "function", "endfunction", "set", "cpp_class", "cpp_end_class"] if quick else
+                                ["option", "function", "endfunction", "set", "cpp_class", "cpp_end_class", "cpp_attr", "add_test", "message", "ct_add_test"],
+                                3, 1, timeout=400 if quick else 2400)
     return dict(obligations=obs, explanation="x", assumptions=[])
